@@ -83,7 +83,7 @@ pub fn cells() -> Vec<(&'static str, Vec<f64>)> {
     for nu in [0.5, 1., 1.5, 2., 2.5, 3., 3.5, 7.9, 30., 30.5, 36., 48., 70., 200.] {
         c.push(("T", vec![nu]));
     }
-    for l in [1e-3, 0.5, 1., 5., 9.99, 10., 42., 149., 150., 400., 1e3, 1e6, 1e10] {
+    for l in [1e-3, 0.5, 1., 5., 9.99, 10., 42., 149., 150., 400., 1e3, 1100., 2000., 1e6, 1e10] {
         c.push(("Poisson", vec![l]));
     }
     for n in [0., 1., 15., 70., 1000.] {
@@ -94,10 +94,10 @@ pub fn cells() -> Vec<(&'static str, Vec<f64>)> {
     for (n, p) in [(100., 0.3), (100., 0.31), (59., 0.5), (61., 0.5), (100., 0.97), (40., 0.95), (400., 0.995), (2000., 0.999), (2000., 0.02), (300., 0.9), (64., 0.5), (128., 0.5), (2048., 0.5), (4096., 0.5), (4096., 0.25), (40., 0.25), (40., 0.75), (200., 0.625)] {
         c.push(("Binomial", vec![n, p]));
     }
-    for p in [[0., 1.], [-2., 6.], [1e3, 1e3 + 1e-3], [5., 5.], [-1e3, 1e3]] {
+    for p in [[0., 1.], [-2., 6.], [1e3, 1e3 + 1e-3], [5., 5.], [-1e3, 1e3], [0., 1e-17], [3e-300, 5e-300], [-2e-20, 2e-20]] {
         c.push(("Uniform", p.to_vec()));
     }
-    for p in [[0., 1.], [-2., 6.], [-1000., 1000.], [7., 7.], [0., 1099511627776.], [-5., -3.], [0., 6917529027641081856.], [-1e18, 1e18], [1., 1e9], [0., 2999999999.], [-7., 500000000.]] {
+    for p in [[0., 1.], [-2., 6.], [-1000., 1000.], [7., 7.], [0., 1099511627776.], [-5., -3.], [0., 6917529027641081856.], [-1e18, 1e18], [1., 1e9], [0., 2999999999.], [-7., 500000000.], [0., 4294967295.], [-2147483648., 2147483647.], [1000., 4294968295.], [0., 65535.], [0., 65536.], [0., 2147483647.]] {
         c.push(("DiscreteUniform", p.to_vec()));
     }
     for l in [1e-3, 1., 4., 1e3] {
@@ -687,7 +687,7 @@ impl Prop for C03 {
                 v.push(k);
             }
         }
-        for k in ["api.sample_loop", "api.sample_n", "api.sample_matrix", "seeding.seed_clock", "seeding.seed_small", "seeding.seed_set", "config.fault_free", "config.fault_injecting", "config.reached_by_update", "config.off_grid", "fault.rng_zero", "fault.rng_max", "fault.rng_tiny", "fault.rng_half", "fault.rng_tail", "fault.rng_streak", "fault.rng_pair", "fault.rng_zig_edge", "config.default_ctor", "config.preceded_by_other_object", "config.two_live_objects", "config.after_rejected_bulk_request", "config.mvn_preceded_by_sibling", "config.fill_policy_active", "config.mvn_structured", "check.dkw", "check.mvn_projection", "check.serial_independence", "dpc.Normal.1", "dpc.Normal.2", "dpc.Normal.3+", "dpc.Poisson.4+", "dpc.Binomial.4+", "dpc.Gamma.4+"] {
+        for k in ["api.sample_loop", "api.sample_n", "api.sample_matrix", "seeding.seed_clock", "seeding.seed_small", "seeding.seed_set", "config.fault_free", "config.fault_injecting", "config.reached_by_update", "config.off_grid", "fault.rng_zero", "fault.rng_max", "fault.rng_tiny", "fault.rng_half", "fault.rng_tail", "fault.rng_streak", "fault.rng_pair", "fault.rng_zig_edge", "config.default_ctor", "config.preceded_by_other_object", "config.two_live_objects", "config.after_rejected_bulk_request", "config.mvn_preceded_by_sibling", "config.fill_policy_active", "config.mvn_structured", "check.dkw", "check.bulk_advances_stream", "check.mvn_projection", "check.serial_independence", "dpc.Normal.1", "dpc.Normal.2", "dpc.Normal.3+", "dpc.Poisson.4+", "dpc.Binomial.4+", "dpc.Gamma.4+"] {
             v.push(k.to_string());
         }
         v
@@ -798,10 +798,27 @@ fn exec_1d(case: &Case, law: &str, p: &[f64], reg: &str, st: &mut Stats, h: &mut
         }
         Api::SampleN => {
             alea::sim::set_budget(DRAW_BUDGET + 256 * n as u64);
+            let d0 = alea::sim::draws();
             match catch(|| obj.sample_n(n)) {
                 Ok(v) => {
                     if v.len() != n {
                         return mk("bulk_shape", "wrong_count", format!("sample_n({}) returned {} values", n, v.len()));
+                    }
+                    // "n independent draws" from the seeded stream: a bulk call must take its values from
+                    // the caller's generator (and advance it), and the next call must continue the stream
+                    let varied = v.iter().any(|x| x.to_bits() != v[0].to_bits());
+                    if varied && !faulty {
+                        st.inc("check.bulk_advances_stream");
+                        if alea::sim::draws() == d0 {
+                            return mk("bulk_stream", "draws_not_from_callers_stream", format!("{}({:?}).sample_n({}) returned {} varying values without consuming a single draw of the calling thread's generator: the values do not come from the seeded stream", law, p, n, n));
+                        }
+                        let m = n.min(70_000);
+                        alea::sim::set_budget(DRAW_BUDGET + 256 * m as u64);
+                        if let Ok(w) = catch(|| obj.sample_n(m)) {
+                            if w.len() == m && slice_bits_eq(&w, &v[..m]).is_none() {
+                                return mk("bulk_stream", "bulk_calls_repeat", format!("{}({:?}): two consecutive sample_n calls returned the same {} values: the second call does not continue the random stream", law, p, m));
+                            }
+                        }
                     }
                     xs = v;
                 }
